@@ -165,6 +165,52 @@ func (g *gen) genMixed(nops int, w mixW) {
 			g.add(DBOp{K: "scan"})
 			continue
 		}
+		if g.prof == "iofault" && name == "iter" && len(g.sfx) >= 3 && g.r.IntN(3) == 0 {
+			// One iterator, several value blocks (or blob blocks), a cold cache:
+			// a value is fetched from one block, the read of the next block
+			// fails once, and the same iterator is used again for keys whose
+			// values live in the block whose read failed. Equal value lengths:
+			// a value served from the wrong cached block would pass every
+			// length check.
+			n := 2 + g.r.IntN(3)
+			if n > len(g.pfx) {
+				n = len(g.pfx)
+			}
+			start := g.r.IntN(len(g.pfx) - n + 1)
+			vlen := pick(&g.r, []int{40, 120, 240})
+			b := DBOp{K: "batch", Mode: "direct"}
+			var keys []string
+			for _, p := range g.pfx[start : start+n] {
+				for _, sf := range g.sfx[1:] {
+					v, _ := g.val()
+					b.Sub = append(b.Sub, DBOp{K: "set", Key: p + sf, Val: v, VLen: vlen})
+					keys = append(keys, p+sf)
+				}
+			}
+			g.add(b)
+			g.add(DBOp{K: "flush"})
+			g.add(DBOp{K: "reopen"})
+			g.snaps, g.iters, batches = nil, nil, nil
+			id := g.newID()
+			g.add(DBOp{K: "iter", ID: id, IO: &IterOpts{}})
+			g.add(DBOp{K: "iterop", ID: id, Mode: "seekge", Key: g.pfx[start]})
+			for j := g.r.IntN(3); j > 0; j-- {
+				g.add(DBOp{K: "iterop", ID: id, Mode: "next"})
+			}
+			g.add(DBOp{K: "armfault", Mode: "table-read", N: g.r.IntN(3)})
+			for j := 1 + g.r.IntN(3); j > 0; j-- {
+				g.add(DBOp{K: "iterop", ID: id, Mode: "next"})
+			}
+			for j := 2 + g.r.IntN(3); j > 0; j-- {
+				if g.r.IntN(2) == 0 {
+					g.add(DBOp{K: "iterop", ID: id, Mode: "seekge", Key: pick(&g.r, keys)})
+				} else {
+					g.add(DBOp{K: "iterop", ID: id, Mode: pick(&g.r, []string{"next", "prev"})})
+				}
+			}
+			g.add(DBOp{K: "iterclose", ID: id})
+			continue
+		}
 		switch name {
 		case "write":
 			g.add(g.writeOp(w.rangeKeys))
